@@ -64,7 +64,7 @@ TBase == /\ Is("Base") /\ t.ph \in {"written", "resolved2", "vulns2"}
          /\ Ev.k \in 1..Len(t.patches)
          /\ \E u \in t.patches[Ev.k].ups : u.name = Ev.name
          /\ t' = [t EXCEPT !.bases = @ \cup {[k |-> Ev.k, name |-> Ev.name, base |-> Ev.base, after |-> Ev.after,
-                                              toKind |-> Ev.toKind, toAt |-> Ev.toAt, hard |-> Ev.hard]}]
+                                              toKind |-> Ev.toKind, toAt |-> Ev.toAt, hard |-> Ev.hard, fromRange |-> Ev.fromRange]}]
 TError == /\ Is("Error") /\ t.ph \in {"parsed", "resolved1"}
           /\ t' = [t EXCEPT !.ph = "error"]
 \* a trace ends only when C11 has been evaluated for every update of every proposed/applied patch
@@ -85,7 +85,9 @@ DevPreCaretT(b) == /\ "C11-relax-prerelease-caret" \in Devs /\ t.scn.strategy = 
 \* package some hard range constrains)
 DevUnfixingT(b) == "C11-override-unfixing-patch" \in Devs /\ t.scn.strategy = "override" /\ t.patches[b.k].fixed = {}
 DevUpdateHardT(b) == "C11-update-maven-hard-range" \in Devs /\ t.scn.mode = "update" /\ b.hard
-DevHardT(b) == DevUnfixingT(b) \/ DevUpdateHardT(b)
+\* override rewrote the manifest's own hard range to a soft version; another package's disjoint hard range takes over
+DevOverrideHardT(b) == "C11-override-maven-hard-range" \in Devs /\ t.scn.strategy = "override" /\ b.hard /\ b.fromRange
+DevHardT(b) == DevUnfixingT(b) \/ DevUpdateHardT(b) \/ DevOverrideHardT(b)
 DevExplicitT(p) == /\ "C12-explicit-introduced" \in Devs /\ t.scn.explicit # <<>>
                    /\ ~(p.intro \subseteq ToSet(t.scn.explicit))
 
